@@ -257,3 +257,563 @@ Proof.
     + eapply Forall_impl; [|exact Hm]. intros y Hy. now apply N.eqb_eq.
     + eapply Forall_impl; [|exact Hl2]. intros y Hy. now apply N.eqb_neq.
 Qed.
+
+(** * Reading the chunks of an index entry *)
+
+Lemma read_chunks_app b c1 c2 :
+  read_chunks b (c1 ++ c2) =
+  match read_chunks b c1, read_chunks b c2 with
+  | Some x, Some y => Some (x ++ y)
+  | _, _ => None
+  end.
+Proof.
+  induction c1 as [|c c1 IH]; cbn [app read_chunks].
+  - destruct (read_chunks b c2); reflexivity.
+  - destruct (read_chunk b c); [|reflexivity]. rewrite IH.
+    destruct (read_chunks b c1); [|reflexivity]. destruct (read_chunks b c2); [|reflexivity].
+    now rewrite app_assoc.
+Qed.
+
+Lemma trunc32_small n : n < U32_LIMIT -> trunc32 n = n.
+Proof. intros H. unfold trunc32. now apply N.mod_small. Qed.
+
+Definition le_data (e : LE) : bytes := r_data (le_rec e).
+
+(** every complete record reads back its data *)
+Lemma read_located f (P : LE -> bool) recs : forall pre tail b,
+  b = pre ++ render_recs recs ++ tail ->
+  forallb rec_ok recs = true ->
+  read_chunks b (map le_ci (filter P (with_file f (locate (lenN pre) recs))))
+  = Some (concat (map le_data (filter P (with_file f (locate (lenN pre) recs))))).
+Proof.
+  unfold with_file.
+  induction recs as [|r rs IH]; intros pre tail b Hb Hok; [reflexivity|].
+  cbn [forallb] in Hok. apply andb_true_iff in Hok as [Hr Hok].
+  pose proof Hr as Hr'. apply rec_ok_fields in Hr' as (Hh & Hs & Hc & Hz).
+  cbn [locate map fst snd].
+  assert (Hb' : b = (pre ++ enc_chunk_header (r_hdr r) ++ r_data r) ++ render_recs rs ++ tail).
+  { rewrite Hb, render_recs_cons. now rewrite <- !app_assoc. }
+  assert (Hl : lenN pre + lenN (enc_chunk_header (r_hdr r)) + rec_size r
+               = lenN (pre ++ enc_chunk_header (r_hdr r) ++ r_data r)).
+  { rewrite !lenN_app, Hs. lia. }
+  specialize (IH _ tail b Hb' Hok). rewrite <- Hl in IH.
+  cbn [filter]. destruct (P _) eqn:EP; [|exact IH].
+  cbn [map read_chunks concat]. rewrite IH.
+  assert (Hrd : read_chunk b (le_ci (f, lenN pre + lenN (enc_chunk_header (r_hdr r)), r)) = Some (r_data r)).
+  { unfold read_chunk, le_ci, le_pos, le_size, le_rec. cbn [fst snd ci_pos ci_size].
+    rewrite trunc32_small by assumption.
+    replace b with ((pre ++ enc_chunk_header (r_hdr r)) ++ r_data r ++ render_recs rs ++ tail)
+      by (rewrite Hb, render_recs_cons; now rewrite <- !app_assoc).
+    rewrite <- lenN_app, dropN_app, Hs, takeN_app. reflexivity. }
+  rewrite Hrd. reflexivity.
+Qed.
+
+Lemma read_torn pre r d :
+  lenN d < rec_size r -> rec_size r < U32_LIMIT ->
+  read_chunk (pre ++ enc_chunk_header (r_hdr r) ++ d)
+             (mkCI (lenN pre + lenN (enc_chunk_header (r_hdr r))) (trunc32 (rec_size r))) = None.
+Proof.
+  intros Hd Hz. unfold read_chunk. cbn [ci_pos ci_size]. rewrite trunc32_small by assumption.
+  rewrite app_assoc, <- lenN_app, dropN_app, takeN_short; [reflexivity | assumption].
+Qed.
+
+Lemma locate_app a : forall pos b,
+  forallb rec_ok a = true ->
+  locate pos (a ++ b) = locate pos a ++ locate (pos + lenN (render_recs a)) b.
+Proof.
+  induction a as [|r a IH]; intros pos b Hok.
+  - simpl. now rewrite N.add_0_r.
+  - cbn [forallb] in Hok. apply andb_true_iff in Hok as [Hr Hok].
+    apply rec_ok_fields in Hr as (_ & Hs & _ & _).
+    cbn [app locate]. rewrite IH by assumption. cbn [app]. f_equal. f_equal. f_equal.
+    rewrite render_recs_cons, !lenN_app, Hs. lia.
+Qed.
+
+Lemma with_file_app f a b : with_file f (a ++ b) = with_file f a ++ with_file f b.
+Proof. apply map_app. Qed.
+
+(** the chunks selected by [P] among the headers of one file: all complete ones read back, a
+    selected torn one makes the read fail *)
+Lemma read_file_chunks b a f (P : LE -> bool) :
+  file_repr b a ->
+  read_chunks b (map le_ci (filter P (file_les f a)))
+  = match filter P (with_file f (locate (hdr_len a + lenN (render_recs (af_recs a))) (opt_list (torn_rec a)))) with
+    | [] => Some (concat (map le_data (filter P (with_file f (locate (hdr_len a) (af_recs a))))))
+    | _ :: _ => None
+    end.
+Proof.
+  intros (tail & Hb & Ht & Hh & Hr & Hlim).
+  unfold file_les. rewrite afile_seen_eq, locate_app by assumption.
+  rewrite with_file_app, filter_app, map_app, read_chunks_app.
+  unfold render_file in Hb. rewrite <- app_assoc in Hb.
+  unfold hdr_len. rewrite (read_located f P (af_recs a) (enc_file_header (af_hdr a)) tail b Hb Hr).
+  destruct Ht as [t Ht | r d Hrok Hd].
+  - cbn [opt_list locate with_file map filter read_chunks]. now rewrite app_nil_r.
+  - cbn [opt_list locate with_file map filter fst snd].
+    destruct (P _) eqn:EP; [|cbn [map read_chunks]; now rewrite app_nil_r].
+    cbn [map read_chunks].
+    apply rec_ok_fields in Hrok as (_ & _ & _ & Hz).
+    replace (read_chunk b _) with (@None bytes); [reflexivity|]. symmetry.
+    unfold le_ci, le_pos, le_size, le_rec. cbn [fst snd].
+    rewrite Hb. rewrite app_assoc, <- lenN_app. apply read_torn; assumption.
+Qed.
+
+(** * Largest instance *)
+
+Definition max_step (k : key) (acc : option N) (r : Rec) : option N :=
+  if of_task k r then match acc with Some m => Some (N.max m (rec_inst r)) | None => Some (rec_inst r) end else acc.
+
+Lemma max_fold k recs : forall acc i,
+  fold_left (max_step k) recs acc = Some i ->
+  (forall m, acc = Some m -> m <= i)
+  /\ (forall r, In r recs -> of_task k r = true -> rec_inst r <= i)
+  /\ (acc = Some i \/ exists r, In r recs /\ of_inst k i r = true).
+Proof.
+  induction recs as [|r recs IH]; intros acc i H.
+  - cbn in H. subst acc. split; [intros m E; injection E as ->; lia|]. split; [intros r []|]. left; reflexivity.
+  - cbn [fold_left] in H. apply IH in H as (Ha & Hr & Hex). unfold max_step in *.
+    destruct (of_task k r) eqn:Ek.
+    + destruct acc as [m|].
+      * split; [intros m' E; injection E as <-; specialize (Ha _ eq_refl); lia|].
+        split.
+        -- intros r' [<-|Hin] Hk; [specialize (Ha _ eq_refl); lia | auto].
+        -- destruct Hex as [E|(r' & Hin & Hr')].
+           ++ injection E as E. destruct (N.max_spec m (rec_inst r)) as [[_ Em]|[_ Em]]; rewrite Em in E.
+              ** right. exists r. split; [left; reflexivity|]. unfold of_inst. now rewrite Ek, E, N.eqb_refl.
+              ** left. now f_equal.
+           ++ right. exists r'. split; [right; assumption | assumption].
+      * split; [discriminate|]. split.
+        -- intros r' [<-|Hin] Hk; [specialize (Ha _ eq_refl); lia | auto].
+        -- destruct Hex as [E|(r' & Hin & Hr')].
+           ++ injection E as E. right. exists r. split; [left; reflexivity|]. unfold of_inst. now rewrite Ek, E, N.eqb_refl.
+           ++ right. exists r'. split; [right; assumption | assumption].
+    + split; [exact Ha|]. split.
+      * intros r' [<-|Hin] Hk; [congruence | auto].
+      * destruct Hex as [E|(r' & Hin & Hr')]; [left; assumption | right; exists r'; split; [right; assumption | assumption]].
+Qed.
+
+Lemma max_inst_spec k recs i :
+  max_inst k recs = Some i ->
+  (forall r, In r recs -> of_task k r = true -> rec_inst r <= i)
+  /\ exists r, In r recs /\ of_inst k i r = true.
+Proof.
+  intros H. apply (max_fold k recs None i) in H as (_ & Hr & [E|Hex]); [discriminate | auto].
+Qed.
+
+(** * Files without headers of instance [i] contribute nothing *)
+
+Lemma no_inst_recs k i a r : has_inst k i a = false -> In r (afile_seen a) -> of_inst k i r = false.
+Proof.
+  unfold has_inst. intros H Hin. destruct (of_inst k i r) eqn:E; [|reflexivity].
+  assert (existsb (of_inst k i) (afile_seen a) = true) by (apply existsb_exists; eauto). congruence.
+Qed.
+
+Lemma is_data_of_inst k i ch r : is_data k i ch r = true -> of_inst k i r = true.
+Proof. unfold is_data. intros H. apply andb_true_iff in H as [H _]. now apply andb_true_iff in H as [H _]. Qed.
+
+Lemma no_inst_files k i ch fs :
+  Forall (fun a => has_inst k i a = false) fs ->
+  filter (is_data k i ch) (all_complete fs) = []
+  /\ existsb (is_data k i ch) (torn_recs fs) = false
+  /\ existsb (fun r => of_inst k i r && (rec_size r =? 0)) (all_seen fs) = false.
+Proof.
+  induction 1 as [|a fs Ha _ (IH1 & IH2 & IH3)]; [repeat split|].
+  change (all_complete (a :: fs)) with (af_recs a ++ all_complete fs).
+  change (all_seen (a :: fs)) with (afile_seen a ++ all_seen fs).
+  change (torn_recs (a :: fs)) with (match af_torn a with Some (r, _) => [r] | None => [] end ++ torn_recs fs).
+  rewrite filter_app, !existsb_app, IH1, IH2, IH3.
+  assert (Hc : forall r, In r (af_recs a) -> of_inst k i r = false).
+  { intros r Hr. apply (no_inst_recs k i a r Ha). rewrite afile_seen_eq. apply in_or_app. now left. }
+  assert (Ht : forall r, In r (opt_list (torn_rec a)) -> of_inst k i r = false).
+  { intros r Hr. apply (no_inst_recs k i a r Ha). rewrite afile_seen_eq. apply in_or_app. now right. }
+  split; [|split].
+  - rewrite app_nil_r. clear - Hc. induction (af_recs a) as [|r l IH]; [reflexivity|]. cbn [filter].
+    destruct (is_data k i ch r) eqn:E.
+    + apply is_data_of_inst in E. rewrite Hc in E by (left; reflexivity). discriminate.
+    + apply IH. intros r' Hr'. apply Hc. now right.
+  - rewrite orb_false_r. unfold torn_rec in Ht. destruct (af_torn a) as [[r d]|]; [|reflexivity].
+    cbn [existsb]. rewrite orb_false_r. destruct (is_data k i ch r) eqn:E; [|reflexivity].
+    apply is_data_of_inst in E. rewrite Ht in E by (left; reflexivity). discriminate.
+  - rewrite orb_false_r. apply not_true_is_false. intros E. apply existsb_exists in E as (r & Hr & E).
+    apply andb_true_iff in E as [E _]. rewrite (no_inst_recs k i a r Ha Hr) in E. discriminate.
+Qed.
+
+Lemma all_seen_app fs1 fs2 : all_seen (fs1 ++ fs2) = all_seen fs1 ++ all_seen fs2.
+Proof. apply flat_map_app. Qed.
+Lemma all_complete_app fs1 fs2 : all_complete (fs1 ++ fs2) = all_complete fs1 ++ all_complete fs2.
+Proof. apply flat_map_app. Qed.
+Lemma torn_recs_app fs1 fs2 : torn_recs (fs1 ++ fs2) = torn_recs fs1 ++ torn_recs fs2.
+Proof. apply flat_map_app. Qed.
+
+Lemma filter_filter' {A} (p q : A -> bool) l : filter p (filter q l) = filter (fun x => p x && q x) l.
+Proof.
+  induction l as [|x l IH]; [reflexivity|]. cbn [filter]. destruct (q x); cbn [filter].
+  - rewrite andb_true_r. destruct (p x); now rewrite IH.
+  - rewrite andb_false_r. exact IH.
+Qed.
+
+Lemma existsb_filter {A} (p q : A -> bool) l : existsb p (filter q l) = existsb (fun x => p x && q x) l.
+Proof.
+  induction l as [|x l IH]; [reflexivity|]. cbn [filter existsb]. destruct (q x); cbn [existsb].
+  - now rewrite andb_true_r, IH.
+  - now rewrite andb_false_r, IH.
+Qed.
+
+Lemma existsb_map {A B} (f : A -> B) (p : B -> bool) l : existsb p (map f l) = existsb (fun x => p (f x)) l.
+Proof. induction l as [|x l IH]; [reflexivity|]. cbn [map existsb]. now rewrite IH. Qed.
+
+Lemma existsb_ext {A} (p q : A -> bool) l : (forall x, p x = q x) -> existsb p l = existsb q l.
+Proof. intros H. induction l as [|x l IH]; [reflexivity|]. cbn [existsb]. now rewrite H, IH. Qed.
+
+Lemma file_les_file f a e : In e (file_les f a) -> le_file e = f.
+Proof.
+  unfold file_les, with_file. intros H. apply in_map_iff in H as (pr & <- & _). reflexivity.
+Qed.
+
+Lemma file_repr_chan b a : file_repr b a -> forall r, In r (afile_seen a) -> rec_chan r < 2 /\ rec_size r < U32_LIMIT.
+Proof.
+  intros (tail & _ & Ht & _ & Hr & _) r Hin. rewrite afile_seen_eq in Hin. apply in_app_or in Hin as [Hin|Hin].
+  - rewrite forallb_forall in Hr. apply Hr in Hin. apply rec_ok_fields in Hin. tauto.
+  - destruct Ht as [t Ht | r' d Hrok Hd]; [destruct Hin|]. destruct Hin as [<-|[]].
+    apply rec_ok_fields in Hrok. tauto.
+Qed.
+
+(** * Main theorem: index entry and bytes of the last instance *)
+
+Definition selq (k : key) (i ch : N) (e : LE) : bool := is_data k i ch (le_rec e).
+
+Lemma lookup_existsb k idx v : lookup k idx = Some v -> existsb (fun kv => fst (fst kv) =? fst k) idx = true.
+Proof.
+  induction idx as [|[k' v'] r IH]; [discriminate|]. cbn [lookup existsb fst].
+  destruct (key_eqb k k') eqn:E.
+  - intros _. apply key_eqb_eq in E. subst. now rewrite N.eqb_refl.
+  - intros H. rewrite IH by assumption. apply orb_true_r.
+Qed.
+
+Lemma Forall2_len {A B} (R : A -> B -> Prop) l1 l2 : Forall2 R l1 l2 -> length l1 = length l2.
+Proof. induction 1; simpl; congruence. Qed.
+
+Theorem read_last bs fs k ch :
+  Forall2 file_repr bs fs -> last_contig fs k = true -> ch < 2 ->
+  exists idx X R i,
+    create_index bs = ROk idx
+    /\ max_inst k (all_seen fs) = Some i
+    /\ lookup k idx = Some (X ++ [R])
+    /\ Forall (fun J => in_id J < i) X
+    /\ in_id R = i
+    /\ in_fin R = spec_fin fs k
+    /\ read_inst (mkLog bs idx) R ch = spec_read fs k ch.
+Proof.
+  intros HF Hc Hch. unfold last_contig in Hc.
+  destruct (max_inst k (all_seen fs)) as [i|] eqn:Emax; [|discriminate].
+  unfold inst_contig in Hc. destruct (filter (has_inst k i) fs) as [|a [|? ?]] eqn:Ef; try discriminate.
+  destruct (max_inst_spec _ _ _ Emax) as (Hmax & _).
+  destruct (task_entry fs k i a Ef Hc Hmax) as (fs1 & fs2 & x & m & X & Hfs & Hlk & HX & HM & H1 & H2).
+  set (n1 := N.of_nat (length fs1)) in *.
+  exists (finalize (build (all_les 0 fs) [])), X, (extend (fresh x) (x :: m)), i.
+  split; [now apply create_index_spec|]. split; [reflexivity|]. split; [exact Hlk|]. split; [exact HX|].
+  (* the block *)
+  assert (HMin : forall e, In e (x :: m) -> In e (file_les n1 a) /\ key_eqb k (le_key e) = true /\ le_inst e = i).
+  { intros e He. rewrite HM in He. apply filter_In in He as [He Ei]. unfold sub_les in He.
+    apply filter_In in He as [He Ek]. apply N.eqb_eq in Ei. auto. }
+  assert (Hx : le_inst x = i /\ le_file x = n1).
+  { destruct (HMin x (or_introl eq_refl)) as (Hin & _ & Ei). split; [assumption | now apply file_les_file in Hin]. }
+  split; [cbn [extend fresh in_id]; tauto|].
+  (* the file *)
+  subst fs. apply Forall2_app_inv_r in HF as (bs1 & bs2' & HF1 & HF2 & ->).
+  inversion HF2 as [|b ? bs2 ? Hb HF3]; subst. clear HF2.
+  assert (Hnth : nth_error (bs1 ++ b :: bs2) (N.to_nat n1) = Some b).
+  { unfold n1. rewrite Nat2N.id, <- (Forall2_len _ _ _ HF1). rewrite nth_error_app2 by lia.
+    now rewrite Nat.sub_diag. }
+  pose proof (file_repr_chan b a Hb) as Hcs.
+  destruct (no_inst_files k i ch fs1 H1) as (A1 & B1 & C1).
+  destruct (no_inst_files k i ch fs2 H2) as (A2 & B2 & C2).
+  split.
+  - (* finished flag *)
+    unfold spec_fin. rewrite Emax. unfold spec_finished.
+    rewrite all_seen_app. change (all_seen (a :: fs2)) with (afile_seen a ++ all_seen fs2).
+    rewrite !existsb_app, C1, C2, orb_false_r. cbn [orb].
+    cbn [extend fresh in_fin orb]. unfold has_end. rewrite HM.
+    unfold sub_les. rewrite filter_filter', existsb_filter.
+    rewrite <- (file_les_recs n1 a), existsb_map. apply existsb_ext. intros e.
+    unfold of_inst, of_task, le_size, le_inst, le_key, le_rec.
+    destruct (rec_size (snd e) =? 0); destruct (rec_inst (snd e) =? i); destruct (key_eqb k (rec_key (snd e))); reflexivity.
+  - (* bytes *)
+    unfold read_inst. cbn [lg_paths]. replace (in_file (extend (fresh x) (x :: m))) with n1 by (cbn; symmetry; tauto).
+    rewrite Hnth.
+    assert (Hcc : chan_chunks (extend (fresh x) (x :: m)) ch = map le_ci (filter (selq k i ch) (file_les n1 a))).
+    { assert (Hsel : filter (fun e => (0 <? le_size e) && (le_chan e =? ch)) (x :: m) = filter (selq k i ch) (file_les n1 a)).
+      { rewrite HM. unfold sub_les. rewrite !filter_filter'. apply filter_ext. intros e.
+        unfold selq, is_data, of_inst, of_task, le_size, le_chan, le_inst, le_key, le_rec.
+        destruct (0 <? rec_size (snd e)); destruct (rec_chan (snd e) =? ch); destruct (rec_inst (snd e) =? i);
+          destruct (key_eqb k (rec_key (snd e))); reflexivity. }
+      rewrite <- Hsel. unfold chan_chunks, extend, fresh. cbn [in_c0 in_c1 app].
+      destruct (N.eqb_spec ch 0) as [->|Hn0]; [reflexivity|].
+      assert (ch = 1) by lia. subst ch. unfold chunks1. f_equal. apply filter_ext_in. intros e He.
+      destruct (HMin e He) as (Hin & _ & _).
+      assert (Hr : In (le_rec e) (afile_seen a)) by (rewrite <- (file_les_recs n1 a); now apply in_map).
+      destruct (Hcs _ Hr) as [Hc2 _]. unfold le_chan.
+      destruct (N.eqb_spec (rec_chan (le_rec e)) 0); destruct (N.eqb_spec (rec_chan (le_rec e)) 1); try reflexivity; lia. }
+    rewrite Hcc, (read_file_chunks b a n1 (selq k i ch) Hb).
+    unfold spec_read. rewrite Emax.
+    rewrite torn_recs_app. change (torn_recs (a :: fs2)) with (match af_torn a with Some (r, _) => [r] | None => [] end ++ torn_recs fs2).
+    rewrite !existsb_app, B1, B2, orb_false_r. cbn [orb].
+    unfold spec_bytes. rewrite all_complete_app. change (all_complete (a :: fs2)) with (af_recs a ++ all_complete fs2).
+    rewrite !filter_app, A1, A2, app_nil_r. cbn [app].
+    assert (Hcomp : concat (map le_data (filter (selq k i ch) (with_file n1 (locate (hdr_len a) (af_recs a)))))
+                    = concat (map r_data (filter (is_data k i ch) (af_recs a)))).
+    { f_equal. unfold le_data. rewrite <- (map_map le_rec r_data). unfold selq.
+      rewrite (map_filter_comm le_rec (is_data k i ch)). f_equal. f_equal.
+      unfold with_file, le_rec. rewrite map_map. cbn [snd]. apply locate_recs. }
+    unfold torn_rec. destruct (af_torn a) as [[r d]|]; cbn [option_map opt_list fst locate with_file map filter existsb].
+    + unfold selq at 1. cbn [le_rec snd]. rewrite orb_false_r. destruct (is_data k i ch r); [reflexivity|].
+      now rewrite Hcomp.
+    + now rewrite Hcomp.
+Qed.
+
+(** * [OutputLog::open] on a directory of stream files of one server *)
+
+Definition hqs_ents (bs : list bytes) : list DirEnt := map (mkDE true) bs.
+
+Lemma file_repr_header b a : file_repr b a -> exists rest n, check_header b = DOk (af_hdr a) rest n.
+Proof.
+  intros (tail & -> & _ & Hh & _). unfold render_file. rewrite <- app_assoc.
+  rewrite check_header_enc by assumption. eauto.
+Qed.
+
+Lemma uid_mem_self u : uid_mem u [u] = true.
+Proof. unfold uid_mem. cbn [existsb]. now rewrite bytes_eqb_refl. Qed.
+
+Lemma open_scan_ok u bs : forall fs found uids paths,
+  Forall2 file_repr bs fs -> Forall (fun a => fh_uid (af_hdr a) = u) fs ->
+  uids = [] \/ uids = [u] ->
+  exists uids', (uids' = [] \/ uids' = [u])
+    /\ open_scan (hqs_ents bs) None found uids paths = (found || negb (match bs with [] => true | _ => false end), uids', paths ++ bs).
+Proof.
+  induction bs as [|b bs IH]; intros fs found uids paths HF Hu Hids.
+  - exists uids. split; [assumption|]. cbn. now rewrite orb_false_r, app_nil_r.
+  - inversion HF as [|? a ? fs' Hb HF']; subst. inversion Hu as [|? ? Ha Hu']; subst.
+    cbn [hqs_ents map open_scan de_hqs de_bytes]. destruct (file_repr_header b a Hb) as (rest & n & ->).
+    fold (hqs_ents bs).
+    destruct (IH fs' true (if uid_mem (fh_uid (af_hdr a)) uids then uids else uids ++ [fh_uid (af_hdr a)]) (paths ++ [b]) HF' Hu')
+      as (uids' & Hids' & ->).
+    { destruct Hids as [->| ->]; [right; reflexivity|]. rewrite uid_mem_self. right; reflexivity. }
+    exists uids'. split; [assumption|]. rewrite <- app_assoc. cbn [app]. now rewrite orb_true_r.
+Qed.
+
+Lemma open_spec u bs fs :
+  Forall2 file_repr bs fs -> Forall (fun a => fh_uid (af_hdr a) = u) fs -> bs <> [] ->
+  open (hqs_ents bs) None = rbind (create_index bs) (fun idx => ROk (mkLog bs idx)).
+Proof.
+  intros HF Hu Hne. unfold open.
+  destruct (open_scan_ok u bs fs false [] [] HF Hu (or_introl eq_refl)) as (uids' & Hids & ->).
+  destruct bs; [congruence|]. cbn [orb negb app].
+  destruct Hids as [->| ->]; reflexivity.
+Qed.
+
+(** a file whose header is cut is skipped by [open] *)
+Lemma open_scan_skip b r filter found uids paths :
+  check_header b = DEof ->
+  open_scan (mkDE true b :: r) filter found uids paths = open_scan r filter true uids paths.
+Proof. intros H. cbn [open_scan de_hqs de_bytes]. now rewrite H. Qed.
+
+(** * The reader on a directory: result per task and channel *)
+
+Theorem reader_spec u bs fs job task ch :
+  Forall2 file_repr bs fs -> Forall (fun a => fh_uid (af_hdr a) = u) fs ->
+  last_contig fs (job, task) = true -> ch < 2 ->
+  exists lg X R i,
+    open (hqs_ents bs) None = ROk lg
+    /\ max_inst (job, task) (all_seen fs) = Some i
+    /\ lookup (job, task) (lg_index lg) = Some (X ++ [R])
+    /\ gather (lg_index lg) job task = ROk R
+    /\ superseded (X ++ [R]) = X
+    /\ Forall (fun J => in_id J < i) X
+    /\ in_id R = i
+    /\ in_fin R = spec_fin fs (job, task)
+    /\ read_channel lg job task ch = spec_read fs (job, task) ch.
+Proof.
+  intros HF Hu Hc Hch.
+  destruct (read_last bs fs (job, task) ch HF Hc Hch) as (idx & X & R & i & Hci & Hmax & Hlk & HX & Hid & Hfin & Hrd).
+  assert (Hne : bs <> []).
+  { intros ->. inversion HF; subst. unfold last_contig in Hc. cbn in Hc. discriminate. }
+  exists (mkLog bs idx), X, R, i.
+  rewrite (open_spec u bs fs HF Hu Hne), Hci. cbn [rbind lg_index].
+  pose proof (lookup_existsb (job, task) idx _ Hlk) as He. cbn [fst] in He.
+  assert (Hg : gather idx job task = ROk R).
+  { unfold gather. rewrite He, Hlk. unfold last_instance. now rewrite last_opt_snoc. }
+  repeat split; try assumption.
+  - unfold superseded. apply removelast_last.
+  - unfold read_channel, cat, cat_tasks. cbn [lg_index].
+    rewrite He. cbn [negb gather_all]. rewrite Hg. cbn [rbind andb].
+    cbn [read_all]. rewrite Hrd. destruct (spec_read fs (job, task) ch); cbn [rbind]; [now rewrite app_nil_r | reflexivity | reflexivity].
+Qed.
+
+(** * Complete files: round trip *)
+
+Definition WF := (FileHeader * list Rec)%type.
+Definition wf_bytes (w : WF) : bytes := render_file (fst w) (snd w).
+Definition wf_afile (w : WF) : AFile := mkAF (fst w) (snd w) None.
+Definition wf_ok (w : WF) : Prop :=
+  file_header_ok (fst w) = true /\ forallb rec_ok (snd w) = true /\ lenN (wf_bytes w) + U32_LIMIT < I64_LIMIT.
+
+Lemma wf_repr w : wf_ok w -> file_repr (wf_bytes w) (wf_afile w).
+Proof.
+  intros (Hh & Hr & Hl). exists []. unfold wf_bytes, wf_afile. cbn [af_hdr af_recs].
+  rewrite app_nil_r. repeat split; try assumption. constructor. reflexivity.
+Qed.
+
+Lemma wf_repr_all ws : Forall wf_ok ws -> Forall2 file_repr (map wf_bytes ws) (map wf_afile ws).
+Proof. induction 1; cbn [map]; constructor; [now apply wf_repr | assumption]. Qed.
+
+Lemma torn_recs_complete ws : torn_recs (map wf_afile ws) = [].
+Proof. induction ws as [|w ws IH]; [reflexivity|]. cbn [map torn_recs flat_map]. exact IH. Qed.
+
+Definition all_recs (ws : list WF) : list Rec := flat_map snd ws.
+
+Lemma all_seen_complete ws : all_seen (map wf_afile ws) = all_recs ws /\ all_complete (map wf_afile ws) = all_recs ws.
+Proof.
+  induction ws as [|w ws [IH1 IH2]]; [split; reflexivity|].
+  cbn [map all_seen all_complete all_recs flat_map]. fold (all_seen (map wf_afile ws)). fold (all_complete (map wf_afile ws)).
+  fold (all_recs ws). rewrite IH1, IH2. unfold afile_seen, wf_afile. cbn [af_recs af_torn]. now rewrite app_nil_r.
+Qed.
+
+Theorem roundtrip u ws job task ch :
+  Forall wf_ok ws -> Forall (fun w => fh_uid (fst w) = u) ws ->
+  last_contig (map wf_afile ws) (job, task) = true -> ch < 2 ->
+  exists lg X R i,
+    open (hqs_ents (map wf_bytes ws)) None = ROk lg
+    /\ max_inst (job, task) (all_recs ws) = Some i
+    /\ gather (lg_index lg) job task = ROk R /\ in_id R = i
+    /\ in_fin R = spec_finished (job, task) i (all_recs ws)
+    /\ read_channel lg job task ch = ROk (spec_bytes (job, task) i ch (all_recs ws))
+    /\ lookup (job, task) (lg_index lg) = Some (X ++ [R]) /\ superseded (X ++ [R]) = X
+    /\ Forall (fun J => in_id J < i) X.
+Proof.
+  intros Hok Hu Hc Hch.
+  assert (Hu' : Forall (fun a => fh_uid (af_hdr a) = u) (map wf_afile ws)).
+  { apply Forall_forall. intros a Ha. apply in_map_iff in Ha as (w & <- & Hw). rewrite Forall_forall in Hu. now apply Hu. }
+  destruct (reader_spec u _ _ job task ch (wf_repr_all ws Hok) Hu' Hc Hch)
+    as (lg & X & R & i & Ho & Hmax & Hlk & Hg & Hsup & HX & Hid & Hfin & Hrd).
+  destruct (all_seen_complete ws) as [Es Ec].
+  exists lg, X, R, i. rewrite Es in Hmax.
+  unfold spec_fin in Hfin. rewrite Es, Hmax in Hfin.
+  unfold spec_read in Hrd. rewrite Es, Hmax, torn_recs_complete, Ec in Hrd. cbn [existsb] in Hrd.
+  repeat split; assumption.
+Qed.
+
+(** * A file cut at any byte offset *)
+
+Lemma firstnN_app_less a b n : n <= lenN a -> firstnN n (a ++ b) = firstnN n a.
+Proof.
+  revert n. induction a as [|x a IH]; intros n H.
+  - rewrite lenN_nil in H. replace n with 0 by lia. now rewrite !firstnN_0.
+  - destruct (N.eqb_spec n 0) as [->|Hn]; [now rewrite !firstnN_0|].
+    rewrite lenN_cons in H. replace n with (N.succ (N.pred n)) by lia. simpl app.
+    rewrite !firstnN_succ, IH by lia. reflexivity.
+Qed.
+
+Lemma cut_recs_spec recs : forall n,
+  forallb rec_ok recs = true ->
+  exists tail,
+    firstnN n (render_recs recs) = render_recs (fst (cut_recs n recs)) ++ tail
+    /\ tail_ok tail (option_map fst (snd (cut_recs n recs)))
+    /\ forallb rec_ok (fst (cut_recs n recs)) = true.
+Proof.
+  induction recs as [|r recs IH]; intros n Hok.
+  - exists []. cbn [cut_recs fst snd option_map forallb]. change (render_recs []) with (@nil N). rewrite firstnN_nil.
+    repeat split. constructor. reflexivity.
+  - cbn [forallb] in Hok. apply andb_true_iff in Hok as [Hr Hok].
+    pose proof Hr as Hr'. apply rec_ok_fields in Hr' as (Hh & Hs & Hc & Hz).
+    cbn [cut_recs]. rewrite render_recs_cons.
+    set (hl := lenN (enc_chunk_header (r_hdr r))). set (dl := lenN (r_data r)).
+    destruct (N.leb_spec (hl + dl) n) as [Hle|Hlt].
+    + destruct (IH (n - (hl + dl)) Hok) as (tail & E & Ht & Hc').
+      destruct (cut_recs (n - (hl + dl)) recs) as [c t] eqn:Ecut. cbn [fst snd] in *.
+      exists tail. split; [|split; [assumption | cbn [forallb]; now rewrite Hr, Hc']].
+      rewrite render_recs_cons, <- !app_assoc.
+      replace n with (lenN (enc_chunk_header (r_hdr r) ++ r_data r) + (n - (hl + dl))) at 1
+        by (rewrite lenN_app; unfold hl, dl; lia).
+      rewrite (app_assoc (enc_chunk_header (r_hdr r))), firstnN_app_more, E. now rewrite <- !app_assoc.
+    + destruct (N.leb_spec hl n) as [Hh2|Hh2]; cbn [fst snd option_map render_recs concat map app].
+      * exists (enc_chunk_header (r_hdr r) ++ firstnN (n - hl) (r_data r)). split; [|split; [|reflexivity]].
+        -- replace n with (lenN (enc_chunk_header (r_hdr r)) + (n - hl)) at 1 by (unfold hl; lia).
+           rewrite firstnN_app_more. f_equal. apply firstnN_app_less. unfold dl in Hlt. lia.
+        -- constructor; [assumption|]. destruct (firstnN_prefix (n - hl) (r_data r)) as (q & _ & Hl).
+           rewrite Hl, Hs. unfold dl in Hlt. lia.
+      * exists (firstnN n (enc_chunk_header (r_hdr r))). split; [|split; [|reflexivity]].
+        -- apply firstnN_app_less. unfold hl in Hh2. lia.
+        -- constructor. destruct (firstnN_prefix n (enc_chunk_header (r_hdr r))) as (q & Hq & Hl).
+           apply (dec_chunk_header_prefix (r_hdr r) _ q Hh Hq).
+           intros ->. rewrite app_nil_r in Hq. rewrite <- Hq in Hl. unfold hl in Hh2. lia.
+Qed.
+
+(** cut at or after the file header: the reader sees [cut_file]'s abstract file *)
+Theorem cut_file_repr w n a :
+  wf_ok w -> cut_file (fst w) (snd w) n = Some a -> file_repr (firstnN n (wf_bytes w)) a.
+Proof.
+  intros (Hh & Hr & Hl) Hcut. unfold cut_file in Hcut.
+  destruct (N.ltb_spec n (lenN (enc_file_header (fst w)))) as [|Hn]; [discriminate|].
+  destruct (cut_recs_spec (snd w) (n - lenN (enc_file_header (fst w))) Hr) as (tail & E & Ht & Hc).
+  destruct (cut_recs (n - lenN (enc_file_header (fst w))) (snd w)) as [c t] eqn:Ecut.
+  injection Hcut as <-. cbn [fst snd] in *.
+  unfold wf_bytes, render_file in *.
+  assert (Eq : firstnN n (enc_file_header (fst w) ++ render_recs (snd w))
+               = (enc_file_header (fst w) ++ render_recs c) ++ tail).
+  { replace n with (lenN (enc_file_header (fst w)) + (n - lenN (enc_file_header (fst w)))) at 1 by lia.
+    rewrite firstnN_app_more, E. now rewrite app_assoc. }
+  assert (Hlen : lenN (firstnN n (enc_file_header (fst w) ++ render_recs (snd w)))
+                 <= lenN (enc_file_header (fst w) ++ render_recs (snd w))).
+  { destruct (firstnN_prefix n (enc_file_header (fst w) ++ render_recs (snd w))) as (q & _ & Hq). rewrite Hq. lia. }
+  exists tail. cbn [af_hdr af_recs]. rewrite Eq in *.
+  split; [reflexivity|]. split; [exact Ht|]. split; [assumption|]. split; [assumption|]. lia.
+Qed.
+
+(** cut inside the file header: [check_header] fails with EOF, [open] skips the file *)
+Theorem cut_file_header w n :
+  wf_ok w -> cut_file (fst w) (snd w) n = None -> check_header (firstnN n (wf_bytes w)) = DEof.
+Proof.
+  intros (Hh & _ & _) Hcut. unfold cut_file in Hcut.
+  destruct (N.ltb_spec n (lenN (enc_file_header (fst w)))) as [Hn|].
+  2:{ destruct (cut_recs _ _); discriminate. }
+  unfold wf_bytes, render_file. rewrite firstnN_app_less by lia.
+  destruct (firstnN_prefix n (enc_file_header (fst w))) as (q & Hq & Hl).
+  apply (check_header_prefix (fst w) _ q Hh Hq). intros ->. rewrite app_nil_r in Hq. rewrite <- Hq in Hl. lia.
+Qed.
+
+(** The torn-file theorem: one writer file cut at ANY byte offset [n] (the others complete, any
+    order): the reader does not fail; for every task whose largest surviving instance is
+    contiguous it returns per channel exactly the data of the surviving complete chunks of that
+    instance, or an I/O error if the cut chunk belongs to that instance and channel - never
+    other bytes; the finished flag is the presence of a surviving end marker. *)
+Theorem torn_file u ws1 w ws2 n a job task ch :
+  Forall wf_ok (ws1 ++ w :: ws2) -> Forall (fun w => fh_uid (fst w) = u) (ws1 ++ w :: ws2) ->
+  cut_file (fst w) (snd w) n = Some a ->
+  let fs := map wf_afile ws1 ++ a :: map wf_afile ws2 in
+  let bs := map wf_bytes ws1 ++ firstnN n (wf_bytes w) :: map wf_bytes ws2 in
+  last_contig fs (job, task) = true -> ch < 2 ->
+  exists lg X R i,
+    open (hqs_ents bs) None = ROk lg
+    /\ max_inst (job, task) (all_seen fs) = Some i
+    /\ gather (lg_index lg) job task = ROk R /\ in_id R = i
+    /\ in_fin R = spec_fin fs (job, task)
+    /\ read_channel lg job task ch = spec_read fs (job, task) ch
+    /\ lookup (job, task) (lg_index lg) = Some (X ++ [R]) /\ superseded (X ++ [R]) = X
+    /\ Forall (fun J => in_id J < i) X.
+Proof.
+  intros Hok Hu Hcut fs bs Hc Hch.
+  apply Forall_app in Hok as [Hok1 Hok2]. inversion Hok2 as [|? ? Hw Hok3]; subst.
+  apply Forall_app in Hu as [Hu1 Hu2]. inversion Hu2 as [|? ? Huw Hu3]; subst.
+  assert (HF : Forall2 file_repr bs fs).
+  { apply Forall2_app; [now apply wf_repr_all|]. constructor; [now apply cut_file_repr | now apply wf_repr_all]. }
+  assert (Hua : fh_uid (af_hdr a) = fh_uid (fst w)).
+  { unfold cut_file in Hcut. destruct (_ <? _); [discriminate|]. destruct (cut_recs _ _). now injection Hcut as <-. }
+  assert (Hu' : Forall (fun a => fh_uid (af_hdr a) = fh_uid (fst w)) fs).
+  { apply Forall_app. split; [|constructor; [assumption|]];
+      apply Forall_forall; intros a' Ha'; apply in_map_iff in Ha' as (w' & <- & Hw'); cbn [wf_afile af_hdr].
+    - rewrite Forall_forall in Hu1. now apply Hu1.
+    - rewrite Forall_forall in Hu3. now apply Hu3. }
+  destruct (reader_spec _ bs fs job task ch HF Hu' Hc Hch)
+    as (lg & X & R & i & Ho & Hmax & Hlk & Hg & Hsup & HX & Hid & Hfin & Hrd).
+  exists lg, X, R, i. repeat split; assumption.
+Qed.
